@@ -85,6 +85,7 @@ static void run_query_history(const Case& c) {
   }
   if (st.nontrivial) ctx().nontrivial_case();
   ctx().cls(cat("kdq", D, ":", ptype == 0 ? "int64" : ptype == 1 ? "double" : "uint64"));
+  if (ptype == 1) ctx().cls(cat("kdq", D, ":double:zero-mode=", (c.u(5) / 8) % 4));
   ctx().cls(cat("kdq", D, ":range=", side <= 4 ? "<=4" : side <= 12 ? "5-12" : "13-97"));
   ctx().cls(cat("kdq", D, ":ops<=", len <= 8 ? "8" : len <= 30 ? "30" : len <= 100 ? "100" : "400"));
   ctx().cls(cat("kdq", D, ":first=", q.first, ":rest=", q.rest));
@@ -110,6 +111,73 @@ static void run_kdq2(const Case& c) {
 static void run_kdq3(const Case& c) {
   if (c.u(0) != 2) throw std::logic_error("C13: kdq3 has query histories only");
   run_query_history<3>(c);
+}
+
+// ---------------------------------------------------------------- mode 5: insertions whose value copy throws (subcheck kdx)
+
+// case: n = [5, dimensions, side, salt, packed operations...] - a mode-0 history on KDTree<Vector2/3<int64_t>, ThrowingValue> in which
+// the value field of an insertion also says which copy construction of the value throws (see KD::replay)
+static void run_kdx(const Case& c) {
+  if (c.u(0) != 5 || c.n.size() < 4) throw std::logic_error("C13: malformed kdx case");
+  int64_t side = c.i(2);
+  if (side < 1 || side > 12) throw std::logic_error("C13: grid side outside the domain");
+  Stats st;
+  if (c.u(1) == 2) KD<2, PointOf<2>, ThrowingValue>::replay(c.n.data() + 4, c.n.size() - 4, side, c.u(3), st, nullptr, true);
+  else if (c.u(1) == 3) KD<3, PointOf<3>, ThrowingValue>::replay(c.n.data() + 4, c.n.size() - 4, side, c.u(3), st, nullptr, true);
+  else throw std::logic_error("C13: kdx dimension");
+  if (st.failed_inserts && st.mutations > st.failed_inserts) ctx().nontrivial_case();
+  ctx().cls(cat("kdx:", c.u(1), "d:failed-inserts=", st.failed_inserts == 0 ? "0" : st.failed_inserts <= 3 ? "1-3" : ">3"));
+  if (st.failed_but_stored) ctx().cls("kdx:insertion threw after the entry was stored (while building the returned iterator)", st.failed_but_stored);
+  if (st.armed_inserts > st.failed_inserts) ctx().cls("kdx:armed insertion made fewer copies than the schedule asked for (succeeded)", st.armed_inserts - st.failed_inserts);
+}
+static Case gen_kdx() {
+  Case c("kdx" C13_SUFFIX);
+  uint64_t D = vg::pick<uint64_t>({2, 2, 3});
+  int64_t side = (D == 2) ? vg::pick<int64_t>({2, 3, 3, 4, 5, 8}) : vg::pick<int64_t>({2, 3});
+  uint64_t len = 1 + vg::scaled(vg::chance(1, 3) ? 10 : 40);
+  c.N(5).N(D).I(side).N(vg::below(1000000));
+  auto coord = [&]() { return static_cast<int64_t>(vg::below(side)); };
+  for (uint64_t i = 0; i < len; i++) {
+    unsigned r = vg::below(100);
+    uint64_t value = vg::below(3);
+    uint64_t inj = vg::pick<uint64_t>({0, 0, 0, 1, 1, 2}); // which copy of the value throws (0: none)
+    if (r < 50) {
+      unsigned code = (kGated && vg::coin()) ? EMPLACE : INSERT;
+      c.N(pack_pt(code, coord(), coord(), D == 3 ? coord() : -1, value + 10 * inj));
+    } else if (r < 62) {
+      c.N(pack_raw(INSERT_DUP, (value + 3 * inj) + 10 * vg::below(1000)));
+    } else if (r < 84) {
+      c.N(pack_raw(ERASE_LIVE, vg::below(1000)));
+    } else if (r < 90) {
+      c.N(pack_pt(ERASE, coord(), coord(), D == 3 ? coord() : -1, value));
+    } else {
+      c.N(pack_raw(SWEEP, vg::pick<uint64_t>({1, 2, 4, 8}) + 10 * vg::below(100000)));
+    }
+  }
+  return c;
+}
+// every sequence of 1..3 insertions into the 3x3 grid x every subset of them failing on the first copy, then one more successful
+// insertion, one erase of a live entry and a full sweep (so that the tree is used on after the failure)
+static void enum_kdx(Enum& e) {
+  uint64_t idx = 0;
+  unsigned max_k = e.thorough() ? 4 : 3;
+  for (unsigned k = 1; k <= max_k; k++) {
+    uint64_t total = 1;
+    for (unsigned i = 0; i < k; i++) total *= 9;
+    for (uint64_t code = 0; code < total && !e.stop; code++)
+      for (uint64_t mask = 0; mask < (1ULL << k); mask++, idx++) {
+        if (!e.mine(idx)) continue;
+        Case c("kdx" C13_SUFFIX);
+        c.N(5).N(2).I(3).N(code * 16 + mask);
+        uint64_t t = code;
+        for (unsigned i = 0; i < k; i++, t /= 9) c.N(pack_pt(INSERT, static_cast<int64_t>(t % 9 % 3), static_cast<int64_t>(t % 9 / 3), -1, i % 3 + 10 * ((mask >> i) & 1)));
+        c.N(pack_pt(INSERT, 1, 1, -1, 2));
+        c.N(pack_raw(ERASE_LIVE, code));
+        c.N(pack_raw(SWEEP, 8 + 10 * mask));
+        e.exec(c);
+      }
+  }
+  e.complete(cat("every sequence of 1..", max_k, " insertions into the 3x3 grid x every subset of them ending with an exception (the first copy of the value throws), followed by a successful insertion, an erase and a sweep that empties the tree"));
 }
 
 // ---------------------------------------------------------------- mode 4: tall chains on a small-stack thread
@@ -248,6 +316,8 @@ static Case gen_query_history() {
   else side = (D == 2) ? vg::pick<int64_t>({2, 3, 3, 4, 4, 5, 6, 8, 12, 30, 97}) : vg::pick<int64_t>({2, 2, 3, 3, 4, 6, 30});
   uint64_t ptype = (D == 2) ? vg::pick<uint64_t>({0, 0, 1, 1, 1, 2}) : vg::pick<uint64_t>({0, 1, 1});
   uint64_t map_a = vg::below(8);
+  // double coordinates: half of the cases spell the zero coordinate with different signs when storing and when querying (DoubleMap)
+  if (ptype == 1 && vg::coin()) map_a += 8 * (1 + vg::below(3));
   int64_t map_b = vg::pick<int64_t>({0, side / 2, side, static_cast<int64_t>(vg::below(side + 2))});
   c.N(2).N(D).I(side).N(vg::below(1000000)).N(ptype).N(map_a).I(map_b);
   uint64_t maxlen = ctx().thorough() ? 300 : 60;
@@ -419,6 +489,7 @@ int main(int argc, char** argv) {
   checks.push_back({"kdq2" C13_SUFFIX, run_kdq2, gen_query_history<2>, kGated ? 2000 : 8000, kGated ? 20000 : 160000, 100, kGated ? std::function<void(Enum&)>() : enum_kdq2});
   checks.push_back({"kdq3" C13_SUFFIX, run_kdq3, gen_query_history<3>, kGated ? 1000 : 4000, kGated ? 10000 : 80000, 100, nullptr});
   if (!kGated) checks.push_back({"kdchain" C13_SUFFIX, run_kdchain, gen_chain, 8, 96, 100, enum_kdchain});
+  checks.push_back({"kdx" C13_SUFFIX, run_kdx, gen_kdx, kGated ? 1500 : 5000, kGated ? 15000 : 80000, 100, kGated ? std::function<void(Enum&)>() : enum_kdx});
 #endif
   return main_(argc, argv, checks);
 }
